@@ -174,7 +174,7 @@ Qed.
 (* ---- x/mint/abci.go BeginBlocker, generated as a function on the state it reaches through its keeper (minter, params, supply, height;
    Minted accumulates what MintCoins was asked to mint): wherever the model's begin_block does not panic, the generated function
    computes the same minter and mints the same amount ------------------------------------------------------------------------------------- *)
-From Sge Require Proofs.GenKernels.
+From Sge Require Proofs.GenMintK.
 Definition mint_state (P : mparams) (m : minter) (supply minted h : Z) : S_mint :=
   {| S_mint_Minter := gminter_of m; S_mint_Params := gparams_of P; S_mint_Supply := supply; S_mint_Minted := minted; S_mint_Height := h |}.
 
@@ -190,7 +190,7 @@ Proof.
     cbn [set_G_Minter_Inflation set_G_Minter_PhaseStep set_G_Minter_PhaseProvisions G_Minter_Inflation G_Minter_PhaseStep G_Minter_PhaseProvisions
          G_Minter_TruncatedTokens gparams_of G_Params_ExcludeAmount m_infl m_step m_prov m_trunc
          set_S_mint_Minter S_mint_Minter S_mint_Params S_mint_Supply S_mint_Minted S_mint_Height].
-    rewrite (GenKernels.gen_NextPhaseProvisions (ph_infl ph) step (m_prov m) (m_trunc m) supply (excl P) ph).
+    rewrite (GenMintK.gen_NextPhaseProvisions (ph_infl ph) step (m_prov m) (m_trunc m) supply (excl P) ph).
     set (m1 := {| m_infl := ph_infl ph; m_step := step; m_prov := next_phase_provisions (ph_infl ph) supply (excl P) ph; m_trunc := m_trunc m |}).
     destruct (ph_infl ph =? 0) eqn:EZ.
     + intros H. injection H as <- <-. rewrite Z.add_0_r. reflexivity.
